@@ -39,7 +39,7 @@ func held(mu any) bool { return false }
 //@   ensures#accepted{C15,C18} result1 == nil ==> result0 == len(payload) && s.bufferedAmount == old(s.bufferedAmount)+uint64(len(payload))
 
 //@ func Stream.onBufferReleased
-//@   at call funcvalue assert#callback-without-locks{C15,C20} !held(s.lock)
+//@   at call funcvalue assert#callback-without-locks{C15} !held(s.lock)
 //@   at call funcvalue assert#callback-on-downward-crossing{C15} fromAmount > s.bufferedAmountLow && s.bufferedAmount <= s.bufferedAmountLow &&
 //@      fromAmount == old(s.bufferedAmount) && s.bufferedAmount == ite(old(s.bufferedAmount) < uint64(nBytesReleased), uint64(0), old(s.bufferedAmount)-uint64(nBytesReleased))
 //@   ensures#released{C15} nBytesReleased > 0 && !(old(s.onBufferedAmountLow) != nil && old(s.bufferedAmount) > old(s.bufferedAmountLow) &&
@@ -53,4 +53,4 @@ func held(mu any) bool { return false }
 
 //@ func Association.processAcknowledgement
 //@   loop 2 complete{C15}
-//@   at call Stream.onBufferReleased assert#released-without-association-lock{C15,C20} !held(a.lock)
+//@   at call Stream.onBufferReleased assert#released-without-association-lock{C15} !held(a.lock)
